@@ -54,3 +54,63 @@ Theorem C09_already_installed :
     SelD sha sigok SNB (c_key c) (fst (fst (do_update sha sigok zdec base c d ch (Some rs) dl))) m.
 Proof. exact already_installed. Qed.
 Print Assumptions C09_already_installed.
+
+(* ---------- the same, read off the abstract machine (theories/Spec.v, SpecProps.v) ----------
+   These are statements about Spec.v alone; C03_calls_refine_the_abstract_machine (props/C03.v) carries them to the
+   model's calls.  They double as a review of the one-page spec. *)
+From UV Require Import Spec SpecProps.
+
+(* C09: an install selects the new patch; falling back from (rolling back, failing) ANOTHER number keeps the selection;
+   without outside damage the selection always has its artifact, so a query answers it and changes nothing *)
+Theorem C09_abstract_install_selects : forall a n, a_sel (a_install a n) = Some n.
+Proof. exact install_selects. Qed.
+Theorem C09_abstract_other_number_keeps_selection :
+  forall a x n, a_sel a = Some n -> x <> n -> a_sel (a_fall_back a x) = Some n.
+Proof. exact fall_back_other_keeps_selection. Qed.
+Theorem C09_abstract_query_is_the_selection : forall a, A_sel_has a -> a_query a = (a, a_sel a).
+Proof. exact query_is_the_selection. Qed.
+Theorem C09_abstract_selection_has_artifact_invariant :
+  forall a, A_sel_has a ->
+    (forall x, A_sel_has (a_fall_back a x)) /\ (forall l, A_sel_has (a_rollback a l)) /\ A_sel_has (a_start a) /\
+    A_sel_has (a_success a) /\ A_sel_has (a_failure a) /\ (forall n, A_sel_has (a_install a n)).
+Proof.
+  intros a H.
+  exact (conj (fun x => A_sel_has_fall_back a x H) (conj (fun l => A_sel_has_rollback l a H)
+        (conj (A_sel_has_start a H) (conj (A_sel_has_success a H) (conj (A_sel_has_failure a H)
+        (fun n => A_sel_has_install a n)))))).
+Qed.
+Print Assumptions C09_abstract_selection_has_artifact_invariant.
+
+(* C02 on the abstract machine: a banned number is neither selected, nor last good, nor booting - an invariant of
+   every transition (an install only happens for a number that is not banned) *)
+Theorem C09_abstract_ban_invariant :
+  forall a, A_ban a ->
+    (forall x, A_ban (a_fall_back a x)) /\ (forall l, A_ban (a_rollback a l)) /\ A_ban (fst (a_query a)) /\
+    A_ban (a_start a) /\ A_ban (a_success a) /\ A_ban (a_failure a) /\
+    (forall n, ~ In n (a_ban a) -> A_ban (a_install a n)).
+Proof.
+  intros a H.
+  exact (conj (fun x => A_ban_fall_back a x H) (conj (fun l => A_ban_rollback l a H) (conj (A_ban_query a H)
+        (conj (A_ban_start a H) (conj (A_ban_success a H) (conj (A_ban_failure a H)
+        (fun n Hn => A_ban_install a n H Hn))))))).
+Qed.
+Print Assumptions C09_abstract_ban_invariant.
+
+(* C10 / C03: falling back from x removes x (not selected, artifact gone) and, if x was the selection, selects the last
+   good patch when that is another number with its artifact, nothing otherwise *)
+Theorem C09_abstract_fall_back_removes :
+  forall a x, a_sel (a_fall_back a x) <> Some x /\ a_has (a_fall_back a x) x = false.
+Proof. exact fall_back_removes. Qed.
+Theorem C09_abstract_fall_back_target :
+  forall a x, a_sel a = Some x ->
+    a_sel (a_fall_back a x) =
+    match a_good a with Some g => if negb (N.eqb g x) && a_has a g then Some g else None | None => None end.
+Proof. exact fall_back_target. Qed.
+
+(* C18: launch start makes the handed-out patch current, success keeps it, a fall back from any number leaves what is
+   running alone *)
+Theorem C09_abstract_current :
+  (forall a n, A_sel_has a -> a_sel a = Some n -> SpecProps.a_current (a_start a) = Some n) /\
+  (forall a b, a_boot a = Some b -> SpecProps.a_current (a_success a) = Some b) /\
+  (forall a x, a_boot (a_fall_back a x) = a_boot a).
+Proof. exact (conj start_sets_current (conj success_keeps_current fall_back_keeps_boot)). Qed.
